@@ -168,6 +168,19 @@ def poly_fails(case):
         T = UTPM.extract_tensor(N, f(UTPM.init_tensor(d, np.asarray(x, dtype=float))), as_full_matrix=False)
     except Exception as ex:
         return 'poly-exception: %s' % (type(ex).__name__ + ':' + str(ex)[:100])
+    # reading a result is repeatable: an extractor neither modifies the evaluated polynomial nor returns a window into it
+    for nm, ext, y_ in (('jacobian', lambda y: UTPM.extract_jacobian(y), f(UTPM.init_jacobian(x))),
+                        ('jac_vec', lambda y: UTPM.extract_jac_vec(y), f(UTPM.init_jac_vec(x, v))),
+                        ('hessian', lambda y: UTPM.extract_hessian(N, y), f(UTPM.init_hessian(x))),
+                        ('hess_vec', lambda y: UTPM.extract_hess_vec(N, y), f(UTPM.init_hess_vec(x, v))),
+                        ('tensor', lambda y: UTPM.extract_tensor(N, y), f(UTPM.init_tensor(d, np.asarray(x, dtype=float))))):
+        before = np.array(y_.data)
+        first = np.array(ext(y_))
+        second = np.array(ext(y_))
+        if not np.array_equal(before, y_.data):
+            return 'poly-%s-mutates: extract_%s modified the coefficients of the polynomial it reads' % (nm, nm)
+        if not np.array_equal(first, second, equal_nan=True):
+            return 'poly-%s-repeat: a second extract_%s of the same result differs from the first' % (nm, nm)
     if not close(np.ravel(J), g, 1e-10):
         return 'poly-jacobian: extract_jacobian differs from the exact gradient'
     if not close(np.ravel(Jv), np.array([g @ v]), 1e-10):
